@@ -35,6 +35,54 @@ impl Rng {
     }
 }
 
+/// ---- progress watchdog: a suite that stops making progress (a busy loop or a wedged session in the
+/// implementation) ends the process with a `stall.json` naming what was in flight, instead of hanging the check
+static LAST_PROGRESS_MS: std::sync::atomic::AtomicU64 = std::sync::atomic::AtomicU64::new(0);
+static STALL_LIMIT_S: std::sync::atomic::AtomicU64 = std::sync::atomic::AtomicU64::new(600);
+static CURRENT: std::sync::Mutex<String> = std::sync::Mutex::new(String::new());
+static START: std::sync::OnceLock<std::time::Instant> = std::sync::OnceLock::new();
+
+fn now_ms() -> u64 {
+    START.get_or_init(std::time::Instant::now).elapsed().as_millis() as u64
+}
+
+pub fn progress() {
+    LAST_PROGRESS_MS.store(now_ms(), std::sync::atomic::Ordering::Relaxed);
+}
+
+/// what is about to run (named in the stall report)
+pub fn begin_case(desc: &str) {
+    if let Ok(mut c) = CURRENT.lock() {
+        c.clear();
+        c.push_str(desc);
+    }
+    progress();
+}
+
+pub fn set_stall_limit(secs: u64) {
+    progress();
+    STALL_LIMIT_S.store(secs, std::sync::atomic::Ordering::Relaxed);
+}
+
+fn start_watchdog(suite: String, out: String) {
+    progress();
+    std::thread::spawn(move || loop {
+        std::thread::sleep(std::time::Duration::from_secs(1));
+        let idle = now_ms().saturating_sub(LAST_PROGRESS_MS.load(std::sync::atomic::Ordering::Relaxed)) / 1000;
+        let limit = std::env::var("TT_STALL_SECS").ok().and_then(|x| x.parse().ok())
+            .unwrap_or_else(|| STALL_LIMIT_S.load(std::sync::atomic::Ordering::Relaxed));
+        if idle >= limit {
+            let cur = CURRENT.lock().map(|c| c.clone()).unwrap_or_default();
+            let _ = std::fs::write(
+                format!("{}/stall.json", out),
+                format!("{{\"suite\":{},\"idle_secs\":{},\"current\":{}}}", jstr(&suite), idle, jstr(&cur)),
+            );
+            eprintln!("suite {} made no progress for {} s; in flight: {}", suite, idle, cur);
+            std::process::exit(97);
+        }
+    });
+}
+
 pub struct Ctx {
     pub suite: String,
     pub out: String,
@@ -57,6 +105,7 @@ impl Ctx {
         std::fs::create_dir_all(out).unwrap();
         let cases = std::io::BufWriter::new(std::fs::File::create(format!("{}/cases.txt", out)).unwrap());
         let imp = std::io::BufWriter::new(std::fs::File::create(format!("{}/impl.txt", out)).unwrap());
+        start_watchdog(suite.to_string(), out.to_string());
         Self {
             suite: suite.to_string(),
             out: out.to_string(),
@@ -80,6 +129,7 @@ impl Ctx {
     /// one query for the Lean driver + the implementation's answer
     pub fn emit(&mut self, query: &str, answer: &str) {
         debug_assert!(!query.contains('\n') && !answer.contains('\n'));
+        progress();
         writeln!(self.cases, "{}", query).unwrap();
         writeln!(self.imp, "{}", answer).unwrap();
         self.n_cases += 1;
@@ -89,10 +139,12 @@ impl Ctx {
     }
 
     pub fn stat(&mut self, key: &str) {
+        progress();
         *self.stats.entry(key.to_string()).or_insert(0) += 1;
     }
 
     pub fn stat_add(&mut self, key: &str, n: u64) {
+        progress();
         *self.stats.entry(key.to_string()).or_insert(0) += n;
     }
 
@@ -104,6 +156,11 @@ impl Ctx {
     }
 
     pub fn finish(mut self) {
+        self.finish_ref()
+    }
+
+    /// writes the outputs; for suites that have to end the process early (a thread is stuck in the implementation)
+    pub fn finish_ref(&mut self) {
         self.cases.flush().unwrap();
         self.imp.flush().unwrap();
         let mut s = String::new();
